@@ -131,6 +131,9 @@ def canon(node):
         low = name.lower()
         if name in ("JoinedStr", "FormattedValue", "AnnAssign", "AsyncFunctionDef", "AsyncFor", "AsyncWith", "Await", "MatMult", "Constant"):
             raise ValueError("fenced: post-3.4 node " + name)
+        if name == "Starred" and isinstance(node.ctx, ast.Load):
+            # a starred expression in load context outside a call's argument list is PEP 448 (3.5+)
+            raise ValueError("fenced: PEP 448 starred display")
         if name == "Num":
             n = node.n
             if isinstance(n, complex):
